@@ -1270,3 +1270,70 @@ Proof.
   split; [exact lam_str_blind_trivial|split; [reflexivity|split; [reflexivity|]]].
   vm_compute. repeat split. intros H; discriminate H.
 Qed.
+
+(* ---- the clock, positively (proofs/C02AllClock.v) ---- *)
+Require Import Blots.proofs.C02AllClock.
+
+(* same_but_clock o o' := builtin_all o' and builtin_all o agree on every built-in other than time_now, binop_all o' and
+   binop_all o agree everywhere: o_now is read by the arm of time_now and by nothing else *)
+Theorem C02_clock_read_by_one_arm : forall o t, same_but_clock o (with_now o t).
+Proof. exact same_but_clock_with_now. Qed.
+Check C02_clock_read_by_one_arm : forall o t, same_but_clock o (with_now o t).
+Print Assumptions C02_clock_read_by_one_arm.
+
+(* Unm.rle x y := fst x = Unmodelled \/ x = y.  Generic in two pairs of dispatchers at the same depth: if the left pair is
+   pointwise 'Unmodelled, or equal' to the right pair (callbacks related the same way), so are the evaluations — every
+   expression form, FunctionDef::call, every depth: an Unmodelled outcome of an operator / built-in is never swallowed *)
+Theorem C02_unmodelled_never_swallowed : forall release bi1 bi2 bu1 bu2,
+  (forall cb1 cb2, Unm.cb_le cb1 cb2 -> forall op l r st, Unm.rle (bi1 cb1 op l r st) (bi2 cb2 op l r st)) ->
+  (forall cb1 cb2, Unm.cb_le cb1 cb2 -> forall b args st, Unm.rle (bu1 cb1 b args st) (bu2 cb2 b args st)) ->
+  forall d c e, Unm.rle (evalD release bi1 bu1 d c e) (evalD release bi2 bu2 d c e).
+Proof. exact Unm.evalD_le2. Qed.
+Check C02_unmodelled_never_swallowed : forall release bi1 bi2 bu1 bu2,
+  (forall cb1 cb2, Unm.cb_le cb1 cb2 -> forall op l r st, Unm.rle (bi1 cb1 op l r st) (bi2 cb2 op l r st)) ->
+  (forall cb1 cb2, Unm.cb_le cb1 cb2 -> forall b args st, Unm.rle (bu1 cb1 b args st) (bu2 cb2 b args st)) ->
+  forall d c e, Unm.rle (evalD release bi1 bu1 d c e) (evalD release bi2 bu2 d c e).
+Print Assumptions C02_unmodelled_never_swallowed.
+
+(* builtin_noclock o = builtin_all o with the arm of time_now POISONED (Unmodelled): an evaluation that does not end in
+   Unmodelled under it (= never calls time_now, by the theorem above) has the same outcome, store and scope chain under
+   every clock reading *)
+Theorem C02_eval_same_under_every_clock : forall o t release d c e,
+  fst (evalD release (binop_all o) (builtin_noclock o) d c e) <> Unmodelled ->
+  evalD release (binop_all (with_now o t)) (builtin_all (with_now o t)) d c e =
+  evalD release (binop_all o) (builtin_all o) d c e.
+Proof. exact eval_any_clock. Qed.
+Check C02_eval_same_under_every_clock : forall o t release d c e,
+  fst (evalD release (binop_all o) (builtin_noclock o) d c e) <> Unmodelled ->
+  evalD release (binop_all (with_now o t)) (builtin_all (with_now o t)) d c e =
+  evalD release (binop_all o) (builtin_all o) d c e.
+Print Assumptions C02_eval_same_under_every_clock.
+
+(* EVAL-TWICE WITH THE CLOCK ADVANCING between the two evaluations: [C02_eval_twice_across_clock_full] with exactly the
+   exclusion its refutation forces — the second evaluation does not read the clock *)
+Theorem C02_eval_twice_across_clock_noclock : forall o t, lam_str_blind o ->
+  forall release d e c r1 c1 r2 c2,
+    no_assign e = true -> cfg_wf c = true ->
+    evalD release (binop_all o) (builtin_all o) d c e = (r1, c1) ->
+    fst (evalD release (binop_all o) (builtin_noclock o) d c1 e) <> Unmodelled ->
+    evalD release (binop_all (with_now o t)) (builtin_all (with_now o t)) d c1 e = (r2, c2) ->
+    osame r1 r2 /\ snd c2 = snd c /\ snd c1 = snd c.
+Proof. exact eval_twice_across_clock_noclock. Qed.
+Check C02_eval_twice_across_clock_noclock : forall o t, lam_str_blind o ->
+  forall release d e c r1 c1 r2 c2,
+    no_assign e = true -> cfg_wf c = true ->
+    evalD release (binop_all o) (builtin_all o) d c e = (r1, c1) ->
+    fst (evalD release (binop_all o) (builtin_noclock o) d c1 e) <> Unmodelled ->
+    evalD release (binop_all (with_now o t)) (builtin_all (with_now o t)) d c1 e = (r2, c2) ->
+    osame r1 r2 /\ snd c2 = snd c /\ snd c1 = snd c.
+Print Assumptions C02_eval_twice_across_clock_noclock.
+
+(* the exclusion holds of a program using libm, to_string of a function and a closure (first and second evaluation),
+   and fails for `time_now()` — the witness of [C02_eval_twice_across_clock_refuted] *)
+Example C02_noclock_exclusion_example :
+  let ev := evalD true (binop_all oracle_trivial) (builtin_noclock oracle_trivial) 5 in
+  fst (ev clock_cfg noclock_expr) <> Unmodelled /\
+  fst (ev (snd (evalD true (binop_all oracle_trivial) (builtin_all oracle_trivial) 5 clock_cfg noclock_expr)) noclock_expr)
+    <> Unmodelled /\
+  fst (ev clock_cfg clock_expr) = Unmodelled.
+Proof. exact noclock_exclusion_example. Qed.
